@@ -11,6 +11,11 @@ type Tag struct {
 	Name              TagName
 	Title             string
 	Description       *string
+
+	// declared tells that the tag comes from a TAG directive (and not from the
+	// path of an interaction without tags): only such a tag can be named by a
+	// Tags directive.
+	declared bool
 }
 
 var _ json.Marshaler = &Tags{}
